@@ -140,6 +140,13 @@ def run(ctx):
             for u in range(nu):
                 g[u] = u
             case["groups"] = [3 * x + 5 for x in g]
+        if method in ("neighbor", "montecarlo", "bruteforce") and case.get("groups") is None and it % 3 == 1:
+            # units named by STRING keys (hash-randomised per process) and asked for by name, in an order of the caller's own
+            nu = rng.randint(3, min(n, 5))
+            names = ["u-%s" % w for w in rng.sample(["alpha", "bravo", "charlie", "delta", "echo", "foxtrot", "golf"], nu)]
+            rows_u = list(range(nu)) + [rng.randrange(nu) for _ in range(n - nu)]
+            ask = rng.sample(names, rng.randint(2, nu))
+            case["named_units"] = dict(names=names, rows=rows_u, ask=ask)
         if method == "neighborK":
             case["kw"] = {"nn_k": 2}
             n_units = rng.randint(2, 4)
@@ -194,7 +201,7 @@ def run(ctx):
             ctx.mismatch("scores/permutations of a fresh object changed after the global random generators were re-seeded and other scorings (history) ran in the same process",
                          dict(case, history=hist), impl=dict(first=vec.tolist(), second=np.frombuffer(bytes.fromhex(b), dtype=float).tolist(), perms=[pa, pb]))
             continue
-        if it % 2 == 0 or not q or case["model"] == "gnb":
+        if it % 2 == 0 or not q or case["model"] == "gnb" or case.get("named_units") is not None:
             for hs in ([0, 1] if q else [0, 1, rng.randrange(2, 10 ** 6)]):
                 # PYTHONHASHSEED=0: nothing ran before in that process; otherwise another history of other scorings runs there first
                 hist2 = [] if hs == 0 else rand_history(rng, p_empty=0.0 if hs == 1 else 0.5, target=case)
